@@ -264,13 +264,98 @@ class VarDef:
     fields: Dict[str, ast.AST]
 
 
+def _dict_fields(ctx, f, n, _depth=0) -> Optional[Dict[str, ast.AST]]:
+    """Constant-keyed fields of a mapping built by `n`: a dict literal, `dict(k=v, ...)`, or a call of a repository helper whose
+    only statement returns such a mapping of its parameters (`def _var_def(vtype, dtype, **fields): return dict(vtype=vtype,
+    dtype=dtype, **fields)`); the helper's parameters are replaced by the call's arguments, so the values are expressions of
+    `f`.  None if `n` is none of these."""
+    if isinstance(n, ast.Dict):
+        out = {}
+        for k, v in zip(n.keys, n.values):
+            if k is None:
+                return None if not isinstance(v, ast.Dict) else out        # `**other`: unknown fields
+            if isinstance(k, ast.Constant) and isinstance(k.value, str):
+                out[k.value] = v
+        return out
+    if not isinstance(n, ast.Call):
+        return None
+    if isinstance(n.func, ast.Name) and n.func.id == "dict" and not n.args:
+        if any(k.arg is None for k in n.keywords):
+            return None
+        return {k.arg: k.value for k in n.keywords}
+    if _depth >= 2:
+        return None
+    g = resolve_single(ctx, f, n)
+    if g is None:
+        return None
+    body = [st for st in g.node.body if not (isinstance(st, ast.Expr) and isinstance(st.value, ast.Constant))]
+    if len(body) != 1 or not isinstance(body[0], ast.Return) or body[0].value is None:
+        return None
+    r = body[0].value
+    # fields of the returned mapping, as expressions of the helper
+    kwparam = g.node.args.kwarg.arg if g.node.args.kwarg is not None else None
+    inner: Dict[str, ast.AST] = {}
+    spread_kw = False
+    if isinstance(r, ast.Call) and isinstance(r.func, ast.Name) and r.func.id == "dict" and not r.args:
+        for k in r.keywords:
+            if k.arg is None:
+                if isinstance(k.value, ast.Name) and k.value.id == kwparam:
+                    spread_kw = True
+                else:
+                    return None
+            else:
+                inner[k.arg] = k.value
+    elif isinstance(r, ast.Dict):
+        for k, v in zip(r.keys, r.values):
+            if k is None:
+                if isinstance(v, ast.Name) and v.id == kwparam:
+                    spread_kw = True
+                else:
+                    return None
+            elif isinstance(k, ast.Constant) and isinstance(k.value, str):
+                inner[k.value] = v
+            else:
+                return None
+    else:
+        return None
+    if any(isinstance(a, ast.Starred) for a in n.args) or any(k.arg is None for k in n.keywords):
+        return None
+    binding = bind_args(g, n)
+    pos = [a.arg for a in g.node.args.posonlyargs + g.node.args.args + g.node.args.kwonlyargs]
+    dflt = {}
+    a_ = g.node.args
+    plain = [x.arg for x in a_.posonlyargs + a_.args]
+    for i, dv in enumerate(a_.defaults):
+        dflt[plain[len(plain) - len(a_.defaults) + i]] = dv
+    for x, dv in zip(a_.kwonlyargs, a_.kw_defaults):
+        if dv is not None:
+            dflt[x.arg] = dv
+    out = {}
+    for k, v in inner.items():
+        if isinstance(v, ast.Constant):
+            out[k] = v
+        elif isinstance(v, ast.Name) and v.id in pos:
+            if v.id in binding:
+                out[k] = binding[v.id]
+            elif v.id in dflt and isinstance(dflt[v.id], ast.Constant):
+                out[k] = dflt[v.id]
+            else:
+                return None
+        else:
+            return None         # the helper computes a field: not a plain constructor
+    if spread_kw:
+        for k in n.keywords:
+            if k.arg not in pos:
+                out[k.arg] = k.value
+    return out
+
+
 def var_defs(ctx, f) -> List[VarDef]:
+    """Variable definitions (`{'vtype': ..., 'shape': ...}` mappings, see _dict_fields for the accepted spellings) that `f`
+    files under a name: as a value of an enclosing dict literal or by `D[name] = <definition>`."""
     out = []
     for n in walk_shallow(f.node):
-        if not isinstance(n, ast.Dict):
-            continue
-        fields = {k.value: v for k, v in zip(n.keys, n.values) if isinstance(k, ast.Constant) and isinstance(k.value, str)}
-        if "vtype" not in fields:
+        if not isinstance(n, (ast.Dict, ast.Call)):
             continue
         p = parent(n)
         key = None
@@ -278,9 +363,12 @@ def var_defs(ctx, f) -> List[VarDef]:
             for k, v in zip(p.keys, p.values):
                 if v is n:
                     key = k
-        elif isinstance(p, ast.Assign) and len(p.targets) == 1 and isinstance(p.targets[0], ast.Subscript):
+        elif isinstance(p, ast.Assign) and p.value is n and len(p.targets) == 1 and isinstance(p.targets[0], ast.Subscript):
             key = p.targets[0].slice
         if key is None:
+            continue
+        fields = _dict_fields(ctx, f, n)
+        if not fields or "vtype" not in fields:
             continue
         st = n
         while not isinstance(st, ast.stmt):
@@ -307,25 +395,70 @@ def branch_chain(node, stop=None) -> List[Tuple[ast.If, bool]]:
     return out
 
 
-def same_condition(ctx, f, if1: ast.If, if2: ast.If) -> bool:
-    """The two tests have the same text and every name in them has the same reaching definitions at both places."""
-    if if1 is if2:
-        return True
-    if norm(if1.test) != norm(if2.test):
-        return False
-    n1 = [n for n in ast.walk(if1.test) if isinstance(n, ast.Name)]
-    n2 = [n for n in ast.walk(if2.test) if isinstance(n, ast.Name)]
+def _strip_not(t):
+    neg = False
+    while isinstance(t, ast.UnaryOp) and isinstance(t.op, ast.Not):
+        t, neg = t.operand, not neg
+    return t, neg
+
+
+def _resolve_flag(ctx, f, t, depth=0):
+    """A test that is a local with one definition stands for that definition (`scalar = pred(x)` ... `if scalar:`)."""
+    t, neg = _strip_not(t)
+    if isinstance(t, ast.Name) and depth < 3:
+        v = single_value(ctx, f, t)
+        if v is not None and not isinstance(v, (ast.Constant, ast.Name)) and _names_stable(ctx, f, v, t):
+            t2, n2 = _resolve_flag(ctx, f, v, depth + 1)
+            return t2, neg != n2
+    return t, neg
+
+
+def _names_stable(ctx, f, value, use) -> bool:
+    """Every local read by `value` (the right-hand side of the single definition of `use`) has the same reaching definitions
+    where it is defined and where `use` is read."""
     rd = ctx.rd(f)
-    for a, b in zip(n1, n2):
-        if {id(d) for d in rd.defs_reaching(a)} != {id(d) for d in rd.defs_reaching(b)}:
-            return False
+    defs = rd.defs_reaching(use)
+    if len(defs) != 1 or not isinstance(defs[0], ast.stmt):
+        return False
+    use_st = stmt_of_expr(use)
+    for x in ast.walk(value):
+        if isinstance(x, ast.Name) and isinstance(x.ctx, ast.Load):
+            a = {id(d) for d in rd.defs_reaching(x)}
+            b = {id(d) for d in rd.defs_reaching_at(use_st, x.id)}
+            if a != b:
+                return False
     return True
+
+
+def condition_relation(ctx, f, if1: ast.If, if2: ast.If) -> int:
+    """+1: the two tests always have the same truth value; -1: always opposite; 0: unrelated/unknown.  Tests are compared after
+    stripping `not` and looking through flag locals; texts must agree and every name must have the same reaching definitions."""
+    if if1 is if2:
+        return 1
+    t1, n1 = _resolve_flag(ctx, f, if1.test)
+    t2, n2 = _resolve_flag(ctx, f, if2.test)
+    if norm(t1) != norm(t2):
+        return 0
+    a = [n for n in ast.walk(t1) if isinstance(n, ast.Name)]
+    b = [n for n in ast.walk(t2) if isinstance(n, ast.Name)]
+    rd = ctx.rd(f)
+    for x, y in zip(a, b):
+        if {id(d) for d in rd.defs_reaching(x)} != {id(d) for d in rd.defs_reaching(y)}:
+            return 0
+    return 1 if n1 == n2 else -1
+
+
+def same_condition(ctx, f, if1: ast.If, if2: ast.If) -> bool:
+    return condition_relation(ctx, f, if1, if2) == 1
 
 
 def compatible(ctx, f, chain_a, chain_b) -> bool:
     for ia, arm_a in chain_a:
         for ib, arm_b in chain_b:
-            if same_condition(ctx, f, ia, ib) and arm_a != arm_b:
+            rel = condition_relation(ctx, f, ia, ib)
+            if rel == 1 and arm_a != arm_b:
+                return False
+            if rel == -1 and arm_a == arm_b:
                 return False
     return True
 
@@ -517,7 +650,7 @@ def iter_source(target, it, name: str):
     return None
 
 
-def element_source(ctx, f, name_node: ast.Name):
+def element_source(ctx, f, name_node: ast.Name, _depth=0):
     """If `name_node` is (only) a loop / comprehension variable: the iterable it runs over (see iter_source)."""
     # comprehension variable?
     a = parent(name_node)
@@ -531,6 +664,46 @@ def element_source(ctx, f, name_node: ast.Name):
     defs = ctx.rd(f).defs_reaching(name_node)
     if len(defs) == 1 and isinstance(defs[0], ast.For):
         return iter_source(defs[0].target, defs[0].iter, name_node.id)
+    # `a, b, c = row[:3]` / `a, b, c = row` where `row` runs over zip(A, B, C, ...) or zip(*cols) with cols = [A, B, C] (+ appends)
+    if len(defs) == 1 and isinstance(defs[0], ast.Assign) and len(defs[0].targets) == 1 and isinstance(defs[0].targets[0], (ast.Tuple, ast.List)) \
+            and _depth < 2:
+        tg = defs[0].targets[0]
+        pos = [i for i, t in enumerate(tg.elts) if isinstance(t, ast.Name) and t.id == name_node.id]
+        v = defs[0].value
+        if len(pos) == 1 and not any(isinstance(t, ast.Starred) for t in tg.elts):
+            return _row_component(ctx, f, v, pos[0], len(tg.elts), _depth)
+    if len(defs) == 1 and isinstance(defs[0], ast.Assign) and isinstance(assigned_value(defs[0], name_node.id), ast.Subscript) and _depth < 2:
+        v = assigned_value(defs[0], name_node.id)
+        if isinstance(v.slice, ast.Constant) and isinstance(v.slice.value, int) and v.slice.value >= 0:
+            return _row_component(ctx, f, v.value, v.slice.value, None, _depth)
+    return None
+
+
+def _row_component(ctx, f, row, i: int, width, _depth):
+    """The iterable whose elements component `i` of `row` takes, when `row` (possibly a prefix slice `row[:k]`) is the loop
+    variable of a loop over zip(...)."""
+    if isinstance(row, ast.Subscript) and isinstance(row.slice, ast.Slice):
+        sl = row.slice
+        lower_ok = sl.lower is None or (isinstance(sl.lower, ast.Constant) and sl.lower.value == 0)
+        upper_ok = sl.upper is None or (isinstance(sl.upper, ast.Constant) and isinstance(sl.upper.value, int) and sl.upper.value > i)
+        if not (lower_ok and upper_ok and sl.step is None):
+            return None
+        row = row.value
+    if not isinstance(row, ast.Name):
+        return None
+    z = element_source(ctx, f, row, _depth + 1)
+    if not (isinstance(z, ast.Call) and call_name(z) == "zip") or z.keywords:
+        return None
+    if len(z.args) == 1 and isinstance(z.args[0], ast.Starred) and isinstance(z.args[0].value, ast.Name):
+        cols = z.args[0].value
+        v = single_value(ctx, f, cols)
+        # later `cols.append(x)` only adds columns behind the literal's
+        if isinstance(v, ast.List) and i < len(v.elts) and all(c.func.attr == "append" for c in mutations_of(f, cols.id)) \
+                and not any(isinstance(e, ast.Starred) for e in v.elts):
+            return v.elts[i]
+        return None
+    if not any(isinstance(a, ast.Starred) for a in z.args) and i < len(z.args):
+        return z.args[i]
     return None
 
 
@@ -730,3 +903,381 @@ def iterates_in_order(ctx, f, it, pname: str) -> Optional[bool]:
         sl = it.slice
         return sl.lower is None and sl.upper is None and sl.step is None
     return None
+
+
+# ---------------------------------------------------------------------------------------------
+# provenance tracer: where does a value come from, through containers, loops and helpers
+# ---------------------------------------------------------------------------------------------
+
+@dataclass(eq=False)
+class Scope:
+    """A function being looked at, and (for a helper) the call through which it was entered."""
+    f: object
+    parent: Optional["Scope"] = None
+    call: Optional[ast.Call] = None
+
+    def key(self):
+        return (self.f.qual, id(self.call) if self.call is not None else 0, self.parent.key() if self.parent is not None else None)
+
+    def root(self) -> "Scope":
+        return self if self.parent is None else self.parent.root()
+
+
+@dataclass
+class Leaf:
+    scope: Scope
+    node: ast.AST
+    sel: tuple              # selectors that could not be applied (the value is a component of what `node` denotes)
+    kind: str               # 'const' | 'param' | 'expr' | 'counter' | 'opaque'
+
+
+@dataclass
+class Trace:
+    leaves: List[Leaf] = field(default_factory=list)
+    waypoints: List[Tuple[Scope, ast.Name, tuple]] = field(default_factory=list)   # names the value passed through, with the pending selectors
+    containers: List[str] = field(default_factory=list)         # locals passed as containers (pending selector 'elem'/'key'/'dkey')
+    binders: List[ast.AST] = field(default_factory=list)         # loops / comprehensions whose variable the value passed through
+
+    def values(self):
+        return [l for l in self.leaves if l.kind != "const"]
+
+    def opaque(self):
+        return [l for l in self.leaves if l.kind == "opaque" or (l.sel and l.kind != "param")]
+
+
+VALUE_WRAPPERS = {"float", "int", "round", "abs", "str"}
+CONTAINER_WRAPPERS = {"list", "tuple", "asarray", "array", "flatten", "squeeze", "copy", "deepcopy", "atleast_1d"}
+
+
+def pattern_path(target, name: str) -> Optional[tuple]:
+    """Selectors that lead from the value bound to `target` (a Name or a nested tuple pattern) to the variable `name`."""
+    if isinstance(target, ast.Name):
+        return () if target.id == name else None
+    if isinstance(target, (ast.Tuple, ast.List)):
+        if any(isinstance(t, ast.Starred) for t in target.elts):
+            return None
+        for i, t in enumerate(target.elts):
+            p = pattern_path(t, name)
+            if p is not None:
+                return (("idx", i),) + p
+    return None
+
+
+def _comp_binding(name_node: ast.Name):
+    """(comprehension generator, path) if `name_node` is a variable of an enclosing comprehension."""
+    child, a = name_node, parent(name_node)
+    while a is not None and not isinstance(a, ast.stmt):
+        if isinstance(a, (ast.ListComp, ast.GeneratorExp, ast.SetComp, ast.DictComp)):
+            for gi, g in enumerate(a.generators):
+                p = pattern_path(g.target, name_node.id)
+                if p is not None:
+                    # the first generator's iterable is evaluated outside the comprehension's scope
+                    if not (gi == 0 and contains(g.iter, name_node)):
+                        return g, p
+        child, a = a, parent(a)
+    return None
+
+
+def contains(outer, inner) -> bool:
+    n = inner
+    while n is not None:
+        if n is outer:
+            return True
+        n = parent(n)
+    return False
+
+
+def trace(ctx, scope: Scope, expr, sel: tuple = (), max_depth: int = 60) -> Trace:
+    """Follow the value of `expr` (or, with `sel`, a component of it) back to the expressions that produce it.
+    Passes through: locals (all reaching definitions), tuple packing/unpacking, loop and comprehension variables over
+    zip/enumerate/dict.items(), list literals/comprehensions/append/extend/`+=`, dict literals and stores with constant keys,
+    `D.setdefault(k, v)`, conditional expressions, `x or default`, value wrappers (float/int/round), container wrappers
+    (list/asarray/...), and calls of repository helpers (every `return`, parameters mapped back to the arguments).
+    Ends at constants, parameters of the root function, arithmetic and anything else (leaf kind 'opaque' when selectors are left)."""
+    res = Trace()
+    seen = set()
+
+    def leaf(sc, node, s, kind=None):
+        if kind is None:
+            if isinstance(node, ast.Constant):
+                kind = "const"
+            elif s:
+                kind = "opaque"
+            else:
+                kind = "expr"
+        res.leaves.append(Leaf(sc, node, s, kind))
+
+    def go_defs(sc, name_node, name, defs, s, depth):
+        f = sc.f
+        rd = ctx.rd(f)
+        if not defs:
+            leaf(sc, name_node, s, "opaque")
+            return
+        for d in defs:
+            k = (sc.key(), id(d), name, s)
+            if k in seen:
+                continue
+            seen.add(k)
+            if d is f.node.args:
+                if sc.parent is not None and sc.call is not None:
+                    b = bind_args(f, sc.call)
+                    if name in b:
+                        go(sc.parent, b[name], s, depth + 1)
+                        continue
+                    dv = _default_of(f, name)
+                    if dv is not None:
+                        go(sc, dv, s, depth + 1)
+                        continue
+                    leaf(sc, name_node, s, "opaque")
+                else:
+                    leaf(sc, name_node, s, "param")
+            elif isinstance(d, (ast.For, ast.AsyncFor)):
+                p = pattern_path(d.target, name)
+                if p is None:
+                    leaf(sc, name_node, s, "opaque")
+                else:
+                    res.binders.append(d)
+                    go(sc, d.iter, (("elem",),) + p + s, depth + 1)
+            elif isinstance(d, ast.Assign):
+                v = assigned_value(d, name)
+                if v is not None:
+                    go(sc, v, s, depth + 1)
+                else:
+                    p = None
+                    for t in d.targets:
+                        p = p or pattern_path(t, name)
+                    if p is None:
+                        leaf(sc, name_node, s, "opaque")
+                    else:
+                        go(sc, d.value, p + s, depth + 1)
+            elif isinstance(d, ast.AnnAssign) and d.value is not None:
+                go(sc, d.value, s, depth + 1)
+            elif isinstance(d, ast.AugAssign):
+                go_defs(sc, name_node, name, rd.defs_reaching_at(d, name), s, depth + 1)
+                if s and s[0][0] == "elem" and isinstance(d.op, ast.Add):
+                    go(sc, d.value, s, depth + 1)
+                elif not s:
+                    leaf(sc, d.value, s, "opaque")
+            else:
+                leaf(sc, name_node, s, "opaque")
+
+    def container_stores(sc, name, s, depth):
+        """what is put into the local container `name` elsewhere in the function"""
+        f = sc.f
+        head = s[0][0]
+        for n in walk_shallow(f.node):
+            if isinstance(n, ast.Call) and isinstance(n.func, ast.Attribute) and isinstance(n.func.value, ast.Name) and n.func.value.id == name:
+                m = n.func.attr
+                if head == "elem":
+                    if m == "append" and len(n.args) == 1:
+                        go(sc, n.args[0], s[1:], depth + 1)
+                    elif m == "extend" and len(n.args) == 1:
+                        go(sc, n.args[0], s, depth + 1)
+                    elif m == "insert" and len(n.args) == 2:
+                        go(sc, n.args[1], s[1:], depth + 1)
+                    elif m == "setdefault" and len(n.args) == 2:
+                        go(sc, n.args[1], s[1:], depth + 1)
+                elif head == "dkey" and m == "setdefault" and n.args:
+                    go(sc, n.args[0], s[1:], depth + 1)
+                elif head == "key" and m == "setdefault" and len(n.args) == 2 and const_str(n.args[0]) == s[0][1]:
+                    go(sc, n.args[1], s[1:], depth + 1)
+            elif isinstance(n, ast.Assign):
+                for t in n.targets:
+                    if isinstance(t, ast.Subscript) and isinstance(t.value, ast.Name) and t.value.id == name:
+                        if head == "elem":
+                            go(sc, n.value, s[1:], depth + 1)
+                        elif head == "dkey":
+                            go(sc, t.slice, s[1:], depth + 1)
+                        elif head == "key" and const_str(t.slice) == s[0][1]:
+                            go(sc, n.value, s[1:], depth + 1)
+                        elif head == "idx" and isinstance(t.slice, ast.Constant) and t.slice.value == s[0][1]:
+                            go(sc, n.value, s[1:], depth + 1)
+
+    def go(sc, e, s, depth):
+        if depth > max_depth:
+            leaf(sc, e, s, "opaque")
+            return
+        f = sc.f
+        if isinstance(e, ast.Constant):
+            leaf(sc, e, s, "const")
+            return
+        if isinstance(e, ast.IfExp):
+            go(sc, e.body, s, depth + 1)
+            go(sc, e.orelse, s, depth + 1)
+            return
+        if isinstance(e, ast.BoolOp) and isinstance(e.op, ast.Or):
+            for v in e.values:
+                go(sc, v, s, depth + 1)
+            return
+        if isinstance(e, ast.Starred):
+            leaf(sc, e, s, "opaque")
+            return
+        if isinstance(e, ast.Subscript):
+            k = e.slice
+            if isinstance(k, ast.Constant) and isinstance(k.value, int) and not isinstance(k.value, bool):
+                go(sc, e.value, (("idx", k.value),) + s, depth + 1)
+            elif isinstance(k, ast.Constant) and isinstance(k.value, str):
+                go(sc, e.value, (("key", k.value),) + s, depth + 1)
+            elif isinstance(k, ast.Slice):
+                prefix = k.lower is None or (isinstance(k.lower, ast.Constant) and k.lower.value == 0)
+                if (not s) or s[0][0] == "elem" or (s[0][0] == "idx" and prefix and k.step is None):
+                    go(sc, e.value, s, depth + 1)
+                else:
+                    leaf(sc, e, s, "opaque")
+            else:
+                go(sc, e.value, (("elem",),) + s, depth + 1)
+            return
+        if isinstance(e, (ast.Tuple, ast.List)):
+            if not s:
+                leaf(sc, e, s, "expr")
+            elif any(isinstance(x, ast.Starred) for x in e.elts):
+                leaf(sc, e, s, "opaque")
+            elif s[0][0] == "idx":
+                i = s[0][1]
+                if -len(e.elts) <= i < len(e.elts):
+                    go(sc, e.elts[i], s[1:], depth + 1)
+                elif isinstance(e, ast.Tuple):
+                    leaf(sc, e, s, "opaque")
+                # an index beyond a list literal: filled in later by append (handled at the name)
+            elif s[0][0] == "elem":
+                for x in e.elts:
+                    go(sc, x, s[1:], depth + 1)
+            else:
+                leaf(sc, e, s, "opaque")
+            return
+        if isinstance(e, ast.Dict):
+            if not s:
+                leaf(sc, e, s, "expr")
+            elif any(k is None for k in e.keys):
+                leaf(sc, e, s, "opaque")
+            elif s[0][0] == "key":
+                for k, v in zip(e.keys, e.values):
+                    if const_str(k) == s[0][1]:
+                        go(sc, v, s[1:], depth + 1)
+            elif s[0][0] == "elem":
+                for v in e.values:
+                    go(sc, v, s[1:], depth + 1)
+            elif s[0][0] == "dkey":
+                for k in e.keys:
+                    go(sc, k, s[1:], depth + 1)
+            else:
+                leaf(sc, e, s, "opaque")
+            return
+        if isinstance(e, (ast.ListComp, ast.GeneratorExp, ast.SetComp)):
+            if s and s[0][0] == "elem":
+                res.binders.append(e)
+                go(sc, e.elt, s[1:], depth + 1)
+            else:
+                leaf(sc, e, s, "opaque" if s else "expr")
+            return
+        if isinstance(e, ast.BinOp):
+            if s and s[0][0] == "elem" and isinstance(e.op, ast.Mult) and (isinstance(e.left, ast.List) or isinstance(e.right, ast.List)):
+                go(sc, e.left if isinstance(e.left, ast.List) else e.right, s, depth + 1)
+            elif s and s[0][0] == "elem" and isinstance(e.op, ast.Add):
+                go(sc, e.left, s, depth + 1)
+                go(sc, e.right, s, depth + 1)
+            else:
+                leaf(sc, e, s)
+            return
+        if isinstance(e, ast.Call):
+            cn = call_name(e)
+            recv = e.func.value if isinstance(e.func, ast.Attribute) else None
+            two = len(s) >= 2 and s[0][0] == "elem" and s[1][0] == "idx"
+            if cn in VALUE_WRAPPERS and recv is None and e.args:
+                go(sc, e.args[0], s, depth + 1)
+            elif cn in CONTAINER_WRAPPERS and e.args and not (recv is not None and isinstance(recv, ast.Name) and recv.id == f.self_name):
+                go(sc, e.args[0], s, depth + 1)
+            elif cn in CONTAINER_WRAPPERS and recv is not None and not e.args:
+                go(sc, recv, s, depth + 1)
+            elif cn == "zip" and two and not any(isinstance(a, ast.Starred) for a in e.args) and s[1][1] < len(e.args):
+                go(sc, e.args[s[1][1]], (("elem",),) + s[2:], depth + 1)
+            elif cn == "enumerate" and two and e.args:
+                if s[1][1] == 1:
+                    go(sc, e.args[0], (("elem",),) + s[2:], depth + 1)
+                else:
+                    leaf(sc, e, s[2:], "counter")
+            elif cn == "items" and recv is not None and two:
+                go(sc, recv, (("dkey",) if s[1][1] == 0 else ("elem",),) + s[2:], depth + 1)
+            elif cn == "values" and recv is not None:
+                go(sc, recv, s, depth + 1)
+            elif cn == "keys" and recv is not None and s and s[0][0] == "elem":
+                go(sc, recv, (("dkey",),) + s[1:], depth + 1)
+            elif cn == "setdefault" and recv is not None and len(e.args) == 2:
+                go(sc, recv, (("elem",),) + s, depth + 1)
+            elif cn in ("get", "pop") and recv is not None and e.args and const_str(e.args[0]) is not None:
+                go(sc, recv, (("key", const_str(e.args[0])),) + s, depth + 1)
+                if len(e.args) > 1:
+                    go(sc, e.args[1], s, depth + 1)
+            else:
+                g = resolve_single(ctx, f, e)
+                rets = returns_of(g) if g is not None else []
+                if g is not None and rets and not any(isinstance(a, ast.Starred) for a in e.args) and all(k.arg for k in e.keywords):
+                    sub = Scope(g, sc, e)
+                    for r in rets:
+                        go(sub, r.value, s, depth + 1)
+                else:
+                    leaf(sc, e, s)
+            return
+        if isinstance(e, ast.Name):
+            res.waypoints.append((sc, e, s))
+            cb = _comp_binding(e)
+            if cb is not None:
+                g, p = cb
+                res.binders.append(g)
+                go(sc, g.iter, (("elem",),) + p + s, depth + 1)
+                return
+            rd = ctx.rd(f)
+            defs = rd.defs_reaching(e)
+            go_defs(sc, e, e.id, defs, s, depth)
+            if s and s[0][0] in ("elem", "key", "dkey", "idx") and not (len(defs) == 1 and defs[0] is f.node.args):
+                res.containers.append(e.id)
+                k = (sc.key(), "stores", e.id, s)
+                if k not in seen:
+                    seen.add(k)
+                    container_stores(sc, e.id, s, depth)
+            return
+        leaf(sc, e, s)
+
+    go(scope, expr, tuple(sel), 0)
+    return res
+
+
+def _default_of(g, name: str) -> Optional[ast.AST]:
+    a = g.node.args
+    plain = [x.arg for x in a.posonlyargs + a.args]
+    for i, dv in enumerate(a.defaults):
+        if plain[len(plain) - len(a.defaults) + i] == name:
+            return dv
+    for x, dv in zip(a.kwonlyargs, a.kw_defaults):
+        if x.arg == name and dv is not None:
+            return dv
+    return None
+
+
+def name_ident(ctx, sc: Scope, n: ast.Name):
+    """Identity of the value a name holds at a place: scope + name + its reaching definitions."""
+    return (sc.key(), n.id, frozenset(id(d) for d in ctx.rd(sc.f).defs_reaching(n)))
+
+
+def helper_scope_tree(ctx, root: Scope, depth=2) -> List[Scope]:
+    """`root` and one scope per call of a same-module helper (transitively): the places where code of the root function may live
+    after extract-method refactorings."""
+    out, frontier = [root], [root]
+    for _ in range(depth):
+        nxt = []
+        for sc in frontier:
+            for n in ast.walk(sc.f.node):
+                if isinstance(n, ast.Call) and n is not sc.f.node:
+                    g = resolve_single(ctx, sc.f, n)
+                    if g is not None and g.module is sc.f.module and g is not sc.f and not any(g is s.f for s in _chain(sc)):
+                        sub = Scope(g, sc, n)
+                        out.append(sub)
+                        nxt.append(sub)
+        frontier = nxt
+    return out
+
+
+def _chain(sc: Scope):
+    while sc is not None:
+        yield sc
+        sc = sc.parent
